@@ -881,8 +881,7 @@ authenticator_inside:
 		hmac_md5_update(&hctx, pkt->authenticator, MD5_HASH_SIZE);
 		break;
 	case RADIUS_PKT_TYPE_ACCOUNTING_RESPONSE:
-		if (NULL != pkt_req &&
-		    pkt_req->code == RADIUS_PKT_TYPE_STATUS_SERVER)
+		if (NULL != pkt_req) /* A reply: Request Authenticator, as radius_pkt_sign() uses. */
 			goto handle_ack;
 		/* Passtrouth. */
 	case RADIUS_PKT_TYPE_ACCOUNTING_REQUEST:
